@@ -369,6 +369,45 @@ func raceCase(r *rand.Rand, base string, idx int) {
 	}
 }
 
+// extractFaultCase: the real txtar-x extracting under an injected I/O fault (every write from
+// the k-th on fails with ENOSPC, the system call is not executed): it must either report
+// failure (non-zero exit) or have written every file exactly - a file cut short behind a
+// zero exit status is what "on success each file holds exactly the entry's data" forbids.
+func extractFaultCase(r *rand.Rand, base string, idx int, bin string) {
+	root := filepath.Join(base, fmt.Sprintf("xf%d", idx))
+	dst := filepath.Join(root, "dst")
+	os.MkdirAll(dst, 0o777)
+	defer os.RemoveAll(root)
+	a := &xt.Archive{}
+	nf := 2 + r.Intn(4)
+	for i := 0; i < nf; i++ {
+		a.Files = append(a.Files, xt.File{Name: fmt.Sprintf("d%d/f%d.txt", i%2, i), Data: []byte(strings.Repeat(fmt.Sprintf("line %d of file %d\n", r.Intn(100), i), 1+r.Intn(3000)))})
+	}
+	k := 1 + r.Intn(nf)
+	run.Eval(1)
+	cmd := exec.Command("strace", "-f", "-qq", "-e", "trace=write", "-e", fmt.Sprintf("inject=write:error=ENOSPC:when=%d+", k), "-o", "/dev/null", filepath.Join(bin, "txtar-x"), "-C", dst)
+	cmd.Stdin = bytes.NewReader(xt.Format(a))
+	out, err := cmd.CombinedOutput()
+	atomic.AddInt64(&nExtractFaults, 1)
+	if err != nil {
+		atomic.AddInt64(&nExtractFaultsReported, 1)
+		return // the failure was reported
+	}
+	for _, f := range a.Files {
+		got, rerr := os.ReadFile(filepath.Join(dst, filepath.FromSlash(f.Name)))
+		if rerr != nil || !bytes.Equal(got, f.Data) {
+			if !limited("extract-fault-silent") {
+				run.Violation(fmt.Sprintf("extraction-fault-not-reported files=%d failing-from-write=%d", nf, k),
+					fmt.Sprintf("txtar-x exited 0 although every write from the %d-th on failed with ENOSPC; %q holds %d of %d bytes (%v); output: %s", k, f.Name, len(got), len(f.Data), rerr, out),
+					wcase{"extraction-fault-not-reported", nil, []string{f.Name}, fmt.Sprintf("write #%d+ -> ENOSPC", k)})
+			}
+			return
+		}
+	}
+}
+
+var nExtractFaults, nExtractFaultsReported int64
+
 func names(es []entry) []string {
 	var n []string
 	for _, e := range es {
@@ -598,7 +637,7 @@ func treeCase(r *rand.Rand, base string, idx int, bin string) {
 func main() {
 	vlib.Main("C15", "exploration", 10*time.Minute, func(r *vlib.Run) {
 		run = r
-		r.Rule("Write: archives of 1-6 entries whose names are 1-5 segments from {a,b,.,..,empty,'c d',é,..a,a..,...,sib,dir} joined by '/', optionally absolute or of the form ../dir/..., with duplicates, against a directory with random pre-existing files and, in a quarter of the cases, a symbolic link (dangling towards outside / inside, or to an existing file) at the path of one entry; the directory sits two levels deep in a sandbox with canary files beside and above it. Concurrent extraction: 2-4 Write calls of archives naming the same files into one fresh directory at once (one creator per file). Round trip: trees of 1-14 text files (nested, dot files/dirs, marker look-alikes, no final newline, empty, invalid UTF-8, CRLF, symlink, empty dir) archived with the real txtar-c (random -a/-quote) and extracted with the real txtar-x. Non-trivial = distinct (names, pre-existing set) / distinct (tree, flags).")
+		r.Rule("Write: archives of 1-6 entries whose names are 1-5 segments from {a,b,.,..,empty,'c d',é,..a,a..,...,sib,dir} joined by '/', optionally absolute or of the form ../dir/..., with duplicates, against a directory with random pre-existing files and, in a quarter of the cases, a symbolic link (dangling towards outside / inside, or to an existing file) at the path of one entry; the directory sits two levels deep in a sandbox with canary files beside and above it. Concurrent extraction: 2-4 Write calls of archives naming the same files into one fresh directory at once (one creator per file). Extraction under fault: the real txtar-x under strace with every write from the k-th on failing with ENOSPC must exit non-zero or have written every file exactly. Round trip: trees of 1-14 text files (nested, dot files/dirs, marker look-alikes, no final newline, empty, invalid UTF-8, CRLF, symlink, empty dir) archived with the real txtar-c (random -a/-quote) and extracted with the real txtar-x. Non-trivial = distinct (names, pre-existing set) / distinct (tree, flags).")
 		r.Assume("file names in trees contain no newline and no leading/trailing blanks (the format cannot carry those); no symlinked directories on the way to an entry inside the target directory of Write (containment is lexical)")
 		base := vlib.Scratch()
 		W := runtime.NumCPU()
@@ -625,6 +664,17 @@ func main() {
 				treeCase(rng, base, i, bin)
 			}
 		})
+		if _, err := exec.LookPath("strace"); err == nil {
+			nx := r.Pick(48, 1200)
+			vlib.Parallel(W, W, func(w int) {
+				rng := r.Rand(fmt.Sprintf("xfault-%d", w))
+				for i := w; i < nx; i += W {
+					extractFaultCase(rng, base, i, bin)
+				}
+			})
+		}
+		r.Set("extractions_under_injected_write_failure", atomic.LoadInt64(&nExtractFaults))
+		r.Set("of_which_reported_failure", atomic.LoadInt64(&nExtractFaultsReported))
 		r.Sample(map[string]any{"kind": "tree", "files": genTree(r.Rand("sample"))})
 		r.Set("write_returned_error", atomic.LoadInt64(&nErr))
 		r.Set("write_succeeded", atomic.LoadInt64(&nOK))
